@@ -553,20 +553,20 @@ pub fn run(args: &Args) {
 		emit(&mut out, &mut rng, &mut laws, &s, 'v', true, None);
 		emit(&mut out, &mut rng, &mut laws, &s, 'p', true, None);
 	}
-	let n = args.n(60, 500);
+	let n = args.n(60, 240);
 	for i in 0..n {
 		let src = gen_src(&mut rng, false);
 		emit(&mut out, &mut rng, &mut laws, &src, 'v', true, None);
 		// a pmtiles file is ≥ 16 KiB: fewer cases carry all 127 header cuts
 		emit(&mut out, &mut rng, &mut laws, &src, 'p', i % 3 == 0, None);
 	}
-	for round in 0..args.n(3, 12) {
+	for round in 0..args.n(3, 6) {
 		let src = gen_spread(&mut rng, round);
 		emit(&mut out, &mut rng, &mut laws, &src, 'v', true, None);
 		emit(&mut out, &mut rng, &mut laws, &src, 'p', false, None);
 	}
 	if args.thorough() {
-		for _ in 0..12 {
+		for _ in 0..6 {
 			let src = gen_src(&mut rng, true);
 			emit(&mut out, &mut rng, &mut laws, &src, 'v', true, None);
 			emit(&mut out, &mut rng, &mut laws, &src, 'p', false, None);
